@@ -216,6 +216,27 @@ fn cases() -> Vec<Case> {
             two_fields: false,
         });
     }
+    for (form, cond) in [
+        ("cond:or-of-three-cmps", "int(f) > 5 or int(f) == 1 or int(g) == 2"),
+        ("cond:and-rows-in-or", "(int(f) > 5 and flt(g) >= 1.5) or (int(f) == 1 and flt(g) < 1.5) or int(f) == 2"),
+        ("cond:cmp-and-ident", "(int(f) >= 1 and A) or (flt(f) < 0.5 and A) or int(g) == 1"),
+    ] {
+        out.push(Case {
+            form: form.into(),
+            yaml: rule("{g: '*'}", cond),
+            two_fields: true,
+        });
+    }
+    for body in [
+        "[{\"int(f)\": \">5\", g: \"*\"}, {\"int(f)\": 1, g: \"*\"}, {\"flt(f)\": \">=1.5\"}]",
+        "[{f: \">5\", \"str(g)\": \"1*\"}, {f: 1}, {f: \"<0\", g: 1}]",
+    ] {
+        out.push(Case {
+            form: "rows-with-casts".into(),
+            yaml: rule(body, "A"),
+            two_fields: true,
+        });
+    }
     out.push(Case {
         form: "cond:str(f)==str(g)".into(),
         yaml: rule("{zz: x}", "str(f) == str(g)"),
@@ -251,6 +272,10 @@ fn check_case(c: &Case, vals: &[Option<MVal>], vals2: &[Option<MVal>]) -> Stats 
     };
     let mut t = false;
     let mut nt = false;
+    let optimised: Vec<(u8, tau_engine::Rule)> = [eng::SW_DEFAULT, 0b1010, 0b0110]
+        .iter()
+        .filter_map(|sw| eng::optimise_with(&rule, *sw, &[]).ok().map(|x| (*sw, x.0)))
+        .collect();
     let gs: Vec<Option<MVal>> = if c.two_fields { vals2.to_vec() } else { vec![None] };
     for fv in vals {
         for gv in &gs {
@@ -275,6 +300,20 @@ fn check_case(c: &Case, vals: &[Option<MVal>], vals2: &[Option<MVal>]) -> Stats 
             }
             if exp.count_ones() == 1 {
                 st.count("predictions_that_are_singletons", 1);
+            }
+            for (sw, o) in &optimised {
+                let ov = eng::val3(o, &d).unwrap_or(2);
+                st.transitions += 1;
+                // after optimisation only truth is compared: which non-true value an optimised
+                // conjunction reports depends on operand order (recorded C01 finding)
+                let truth_ok = if ov == 1 { exp & refint::T != 0 } else { ov != 2 && exp != refint::T };
+                if !truth_ok {
+                    st.push_violation(Violation {
+                        signature: format!("{} after optimise({}): engine {} reference {}", c.form, eng::sw_name(*sw), eng::v3name(ov), refint::set_name(exp)),
+                        witness: format!("optimised {} reference {} ; rule {} doc {}", eng::v3name(ov), refint::set_name(exp), one_line(&c.yaml), d.show()),
+                        replay: json!({"kind":"optimise","rule_yaml":c.yaml,"sw_bits":sw,"hash_order_choices":[],"document":crate::report::mobj_to_json(&d)}),
+                    });
+                }
             }
             if bit(v) & exp == 0 || m != Ok(v == 1) {
                 let cls = if c.two_fields {
